@@ -596,7 +596,23 @@ fn run_ladder(ctx: &mut Ctx) {
             }
         }
     }
-    let results = run_probes(jobs, Duration::from_secs(30), 16);
+    let mut results = run_probes(jobs, Duration::from_secs(30), 16);
+    // Stack use per nesting level is what an *unoptimised* build makes of it (that is what `cargo test` and most
+    // debugging sessions run): the band just below the limit is probed again with the dev-profile build of this
+    // harness on a 2 MiB thread, when ./check has built one (HV_DEBUG_EXE)
+    if let Ok(exe) = std::env::var("HV_DEBUG_EXE") {
+        if std::path::Path::new(&exe).exists() {
+            let mut jobs2 = vec![];
+            for op in OPENERS {
+                for d in [200usize, 240, 250, 253, 255, 257, 1024] {
+                    jobs2.push(vec!["ladder".to_string(), op.to_string(), d.to_string(), "1".to_string(), "1".to_string()]);
+                    meta.push((op, d, true, true));
+                }
+            }
+            ctx.rec.class_n("ladder:unoptimised-build-probes", jobs2.len() as u64);
+            results.extend(crate::isolate::run_probes_with(Some(&exe), jobs2, Duration::from_secs(60), 16));
+        }
+    }
     for (r, (op, d, closed, thread)) in results.iter().zip(meta.iter()) {
         ctx.rec.evals += 1;
         ctx.rec.class(&format!("ladder:{op}"));
@@ -651,7 +667,7 @@ fn run_ladder(ctx: &mut Ctx) {
 }
 
 pub fn run(ctx: &mut Ctx) {
-    ctx.rule("inputs: arbitrary bytes (uniform and biased to the Zinc/JSON alphabets and token dictionaries), grammar-generated valid Zinc/Hayson documents, every prefix of them (<= 320 B, exhaustively), 1-3 mutations (bit flip/insert/delete/duplicate/token splice/truncate/line-ending rewrite/extra or missing cell/deleted or duplicated line/unbalanced bracket), damaged and truncated grids, timestamps assembled from boundary parts (skipped / repeated local hours, range ends, leap seconds, offsets in and out of range, known / unknown zone names), windows of the repository's corpus files truncated and mutated, and a nesting ladder 1..131072 (powers of two and the band around the 128 / 256 level limits) for 11 openers closed and unclosed in child processes on the main and a 2 MiB thread stack; readers: from_str, Parser::parse_value and parse_grid_iterator (to the first Err/None) over readers with generated chunk sizes, Interrupted returns, I/O faults of seven error kinds (once, for ever, or a timeout on every n-th call after which the caller asks again: up to 24 more parse_value calls / 48 more rows pulled), serde_json from_slice/from_str; oracle: returns Ok or Err - no panic, no fuel exhaustion (64*(len+16) scanner/lexer reads), no abort, no confirmed hang; non-trivial: input not empty and not merely a bare scalar; distinct by input hash");
+    ctx.rule("inputs: arbitrary bytes (uniform and biased to the Zinc/JSON alphabets and token dictionaries), grammar-generated valid Zinc/Hayson documents, every prefix of them (<= 320 B, exhaustively), 1-3 mutations (bit flip/insert/delete/duplicate/token splice/truncate/line-ending rewrite/extra or missing cell/deleted or duplicated line/unbalanced bracket), damaged and truncated grids, timestamps assembled from boundary parts (skipped / repeated local hours, range ends, leap seconds, offsets in and out of range, known / unknown zone names), windows of the repository's corpus files truncated and mutated, and a nesting ladder 1..131072 (powers of two and the band around the 128 / 256 level limits) for 11 openers closed and unclosed in child processes on the main and a 2 MiB thread stack (the band 200-257 also with the unoptimised build of the harness, whose frames are the large ones); readers: from_str, Parser::parse_value and parse_grid_iterator (to the first Err/None) over readers with generated chunk sizes, Interrupted returns, I/O faults of seven error kinds (once, for ever, or a timeout on every n-th call after which the caller asks again: up to 24 more parse_value calls / 48 more rows pulled), serde_json from_slice/from_str; oracle: returns Ok or Err - no panic, no fuel exhaustion (64*(len+16) scanner/lexer reads), no abort, no confirmed hang; non-trivial: input not empty and not merely a bare scalar; distinct by input hash");
     ctx.assume("fuel ticks at every Scanner::read / Lexer::read (hook) bound every parsing loop; what the row iterator does after its first error is not asserted");
     let depth = ctx.tier.pick(2, 3) as u32;
     run_ladder(ctx);
